@@ -355,6 +355,11 @@ def run_case(case, rec, mon=None):
             except Exception as e:
                 mon.v("copying (%s) a %s bank raised %r" % (way, cfg["name"], e), check="copy_raise", cls=cfg["name"], cfg=cfg)
                 bank = None
+        if bank is not None and case["idx"] % 3 == 0:
+            from ..common import poke
+
+            poke(bank)
+            rec.count("banks_inspected_before_the_first_probe")
         if bank is not None:
             nf = bank.num_filts
             for i in sorted({0, nf - 1, int(rng.integers(nf))}):
